@@ -370,12 +370,14 @@ impl<'a, R: Resolve, U: Updater> Cloner for Importer<'a, R, U> {
             return Ok(new_ref);
         }
         let obj = self.resolver.resolve(old)?;
-        let clone = obj.deep_clone(self)?;
 
-        let new = self.updater.create(clone)?
-            .get_ref().get_inner();
-
+        // reserve the new reference before descending: the object may (indirectly) refer to itself
+        let promise = self.updater.promise::<Primitive>();
+        let new = promise.get_inner();
         self.map.insert(old, new);
+
+        let clone = obj.deep_clone(self)?;
+        self.updater.fulfill(promise, clone)?;
 
         Ok(new)
     }
